@@ -181,6 +181,10 @@ func c18Cases(env vk.Env) []vk.Case {
 		i := i
 		cs = append(cs, vk.Case{ID: fmt.Sprintf("stress/%d", i), Run: func(t *vk.T) { c18Stress(t, i, env.Pick(1500, 15000)) }})
 	}
+	for i := 0; i < env.Pick(20, 300); i++ {
+		i := i
+		cs = append(cs, vk.Case{ID: fmt.Sprintf("finite/%d", i), Run: func(t *vk.T) { c18Finite(t, i) }})
+	}
 	cs = append(cs, vk.Case{ID: "nilpool", Run: c18Nil})
 	return cs
 }
@@ -434,6 +438,61 @@ func c18Stress(t *vk.T, i int, calls int) {
 	}
 	if i < 1 {
 		t.Sample(map[string]any{"kind": "stress", "workers": w, "calls": calls})
+	}
+}
+
+// c18Finite: Search over a haystack with exactly `cnt` needles (and cnt=0): once the results are found no worker may
+// keep evaluating f.  Logical bound: after Search returned, each worker can at most finish the call it was in, so more
+// than `workers` further invocations prove that workers are still searching (they are not available for the next call).
+func c18Finite(t *vk.T, i int) {
+	c18Install()
+	setHook(nil)
+	r := t.Rng
+	w := 1 + r.Intn(6)
+	p := pool.NewPool(w)
+	for round := 0; round < 6; round++ {
+		cnt := r.Intn(4)
+		if round == 0 {
+			cnt = 0
+		}
+		var calls, succ int64
+		var res []interface{}
+		desc := fmt.Sprintf("search(count=%d) over a haystack with exactly %d needles on %d workers", cnt, cnt, w)
+		if !callWithWatch(t, "search-finite", desc, func() {
+			res = p.Search(cnt, func() interface{} {
+				atomic.AddInt64(&calls, 1)
+				if r := atomic.AddInt64(&succ, 1); r <= int64(cnt) {
+					return int(r)
+				}
+				runtime.Gosched()
+				return nil
+			})
+		}) {
+			return
+		}
+		t.Obs("evaluations", 1)
+		for k, v := range res {
+			if v == nil {
+				t.Violation("search-finite|nil-result", "%s: result[%d] is nil", desc, k)
+			}
+		}
+		at := atomic.LoadInt64(&calls)
+		time.Sleep(15 * time.Millisecond)
+		after := atomic.LoadInt64(&calls)
+		if after-at > int64(w) {
+			t.Violation("search-finite|workers-keep-searching-after-return", "%s: f was invoked %d more times after Search had returned (at most %d in-flight calls can finish): the workers are still searching and unavailable", desc, after-at, w)
+			return
+		}
+		conservation(t, "search-finite", desc, false)
+		t.Distinct("search-finite|w=%d|count=%d", w, cnt)
+		// the pool must be usable right away
+		if !c18Call(t, p, "parallelize", 1+r.Intn(4), round, "search-finite", "parallelize after "+desc, nil) {
+			return
+		}
+	}
+	p.TearDown()
+	if i == 0 {
+		t.Sample(map[string]any{"kind": "finite haystack search", "workers": w})
 	}
 }
 
